@@ -17,7 +17,7 @@ static const int TUNE_K[] = { 2, 3, 5, 9 };
 static void set_src(vcase *c, int fam, int p, int dev, int vals, int tune, int type, int cp)
 {
     if (fam == 0) { all123(p, &c->n, &c->pat); } else { c->n = 6; c->pat = dev1_pattern(6, base_pattern(6, p), dev); }
-    c->m = c->n; c->vals = (int[]){ 1, 2, 7 }[vals]; set_tune(c, TUNE_K[tune]); c->type = type; c->colperm = (int[]){ 0, 3 }[cp]; c->u = 1.0; c->nrhs = 1; c->rhs = 1; c->permid = -1;
+    c->m = c->n; c->vals = (int[]){ 1, 15, 7 }[vals]; set_tune(c, TUNE_K[tune]); c->type = type; c->colperm = (int[]){ 0, 3 }[cp]; c->u = 1.0; c->nrhs = 1; c->rhs = 1; c->permid = -1;
 }
 static void s14_trsv_a(const int *d, vcase *c) { set_src(c, 0, d[0], 0, d[1], d[2], d[3], 0); c->aux = 0; c->k = d[4]; c->rhs = d[0] % 4 + 1; }
 static void s14_trsv_b(const int *d, vcase *c) { set_src(c, 1, d[0], d[1], d[2], d[3], d[4], d[5]); c->aux = 0; c->k = d[6]; c->rhs = d[1] % 4 + 1; }
@@ -25,8 +25,8 @@ static void s14_gstrs_a(const int *d, vcase *c) { set_src(c, 0, d[0], 0, d[1], d
 static void s14_gstrs_b(const int *d, vcase *c) { set_src(c, 1, d[0], d[1], d[2], d[3], d[4], d[5]); c->aux = 1; c->trans = d[6]; c->nrhs = d[7]; c->ldbx = (int[]){ 0, 1, 3 }[d[8]]; }
 static const int RM[] = { 2, 3, 3, 1, 2, 4 }, RN[] = { 1, 1, 2, 2, 3, 2 };
 static long roff[7]; static long rtotal(void) { long s = 0; for (int k = 0; k < 6; k++) { roff[k] = s; s += 1L << (RM[k] * RN[k]); } roff[6] = s; return s; }
-static void s14_gemv_sq(const int *d, vcase *c) { all123(d[0], &c->n, &c->pat); c->m = c->n; c->vals = (int[]){ 1, 7 }[d[1]]; c->type = d[2]; c->aux = 2; c->trans = d[3]; c->k = d[4] * 5 + d[5]; c->rhs = 1; }
-static void s14_gemv_rect(const int *d, vcase *c) { rtotal(); int k = 0; while (d[0] >= roff[k + 1]) k++; c->m = RM[k]; c->n = RN[k]; c->pat = (uint64_t)(d[0] - roff[k]); c->vals = (int[]){ 1, 7 }[d[1]]; c->type = d[2]; c->aux = 2; c->trans = d[3]; c->k = d[4] * 5 + d[5]; c->rhs = 1; }
+static void s14_gemv_sq(const int *d, vcase *c) { all123(d[0], &c->n, &c->pat); c->m = c->n; c->vals = (int[]){ 15, 7 }[d[1]]; c->type = d[2]; c->aux = 2; c->trans = d[3]; c->k = d[4] * 5 + d[5]; c->rhs = 1; }
+static void s14_gemv_rect(const int *d, vcase *c) { rtotal(); int k = 0; while (d[0] >= roff[k + 1]) k++; c->m = RM[k]; c->n = RN[k]; c->pat = (uint64_t)(d[0] - roff[k]); c->vals = (int[]){ 15, 7 }[d[1]]; c->type = d[2]; c->aux = 2; c->trans = d[3]; c->k = d[4] * 5 + d[5]; c->rhs = 1; }
 static void s14_gemm(const int *d, vcase *c) { s14_gemv_rect(d, c); c->aux = 3; c->nrhs = 1 + d[6]; c->ldbx = d[7]; }
 static void s14_gemm_sq(const int *d, vcase *c) { s14_gemv_sq(d, c); c->aux = 3; c->nrhs = 1 + d[6]; c->ldbx = d[7]; }
 static const family F14[] = {
